@@ -93,7 +93,7 @@ theorem crossnobis_identity_precision (T : (Nat → K) → (Nat → K)) (P : Nat
 theorem crossnobis_foldprec_eq (inv : List (List K) → List (List K)) (rm : Bool) (P : Nat)
     (prec : F → List (List K)) (D : List (Obs L F K)) {R : Nat} (hbal : Balanced D R)
     (hM : 2 ≤ (foldsOfD D).length)
-    (hsym : ∀ m ∈ foldsOfD D, ∀ n ∈ foldsOfD D, ∀ k l,
+    (hsym : ∀ m ∈ foldsOfD D, ∀ n ∈ foldsOfD D, ∀ k l, k < P → l < P →
       pairPrec inv prec m n k l = pairPrec inv prec m n l k) :
     foldPrecAlgo inv rm P ((foldsOfD D).map prec) D
       = (pairsOf (condsOf D)).map (fun ab =>
@@ -114,6 +114,44 @@ theorem poissoncv_eq_pair_average (lg : K → K) (lam0 w : K) (P : Nat)
   intro ab _
   unfold cvSpec poissonCvSpec
   simp only [kdiff_pkern]
+
+/-- The estimator of the *pinned* tree (`rdm` overwritten in the loop, DESIGN §7 #3, repaired
+    by add674b3) in closed form: only the products in which the **last** fold is the test
+    fold survive — the other M−1 test folds never contribute, which is why it violated the
+    property. -/
+theorem poissoncv_lastfold_closed (lg : K → K) (lam0 w : K) (P : Nat)
+    (D : List (Obs L F K)) {R : Nat} (hbal : Balanced D R) (hM : 2 ≤ (foldsOfD D).length)
+    {last : F} (hl : (foldsOfD D).getLast? = some last) :
+    poissonCvLastFold lg lam0 w P D
+      = (pairsOf (condsOf D)).map (fun ab => (ab,
+          (((foldsOfD D).filter (fun n => n ≠ last)).map (fun n =>
+              kdiff (pkern lg P) (foldMean (reg lam0 w) D ab.1 n) (foldMean (reg lam0 w) D ab.2 n)
+                (foldMean (reg lam0 w) D ab.1 last) (foldMean (reg lam0 w) D ab.2 last))).sum
+            / ((((foldsOfD D).filter (fun n => n ≠ last)).length : Nat) : K)
+            / ((P : Nat) : K))) := by
+  have hperm := sortByCond_perm D
+  have hs := sortByCond_sorted D
+  have hbal' : Balanced (sortByCond D) R := hbal.perm hperm.symm
+  have hfolds : foldsOf (sortByCond D) = sortedDistinct (D.map (·.fold)) := by
+    unfold foldsOf
+    exact sortedDistinct_congr (fun b => (hperm.map _).mem_iff)
+  have hconds : uniqueFirst ((sortByCond D).map (·.cond)) = sortedDistinct (D.map (·.cond)) := by
+    rw [uniqueFirst_of_sorted hs]
+    exact sortedDistinct_congr (fun b => (hperm.map _).mem_iff)
+  have hlast : last ∈ foldsOf (sortByCond D) := by
+    rw [hfolds]; exact List.mem_of_getLast? hl
+  have hM' : 2 ≤ (foldsOf (sortByCond D)).length := by rw [hfolds]; exact hM
+  unfold poissonCvLastFold
+  simp only []
+  rw [List.getLast?_map, hfolds, hl]
+  simp only [Option.map_some]
+  rw [← hfolds, lofoFold_eq _ _ P (reg_meanCommute lam0 w) (pkern_meanLinear lg P) _ hs hbal' hM'
+    hlast]
+  unfold pairLabels
+  rw [averageBy_fst, zip_map_self, hconds, hfolds]
+  have hfm : ∀ c f, foldMean (reg lam0 w) (sortByCond D) c f = foldMean (reg lam0 w) D c f :=
+    fun c f => foldMean_perm hperm _ c f
+  simp only [hfm]
 
 /-- What "between-fold products only, every fold contributes" means for the pair average:
     (1) a product of a fold with itself has weight zero, (2) the value does not depend on
@@ -144,7 +182,7 @@ theorem cv_obs_perm_estimators {D D' : List (Obs L F K)} (h : D'.Perm D)
     (∀ rm P (N : Nat → Nat → K), crossnobisAlgo rm P N D' = crossnobisAlgo rm P N D) ∧
     (∀ (lg : K → K) lam0 w P, poissonCvAlgo lg lam0 w P D' = poissonCvAlgo lg lam0 w P D) ∧
     (∀ (inv : List (List K) → List (List K)) rm P (prec : F → List (List K)),
-        (∀ m ∈ foldsOfD D, ∀ n ∈ foldsOfD D, ∀ k l,
+        (∀ m ∈ foldsOfD D, ∀ n ∈ foldsOfD D, ∀ k l, k < P → l < P →
           pairPrec inv prec m n k l = pairPrec inv prec m n l k) →
         foldPrecAlgo inv rm P ((foldsOfD D').map prec) D'
           = foldPrecAlgo inv rm P ((foldsOfD D).map prec) D) := by
@@ -183,7 +221,7 @@ theorem cv_fold_relabel_estimators (φ : F → G) (hφ : Function.Injective φ)
         poissonCvAlgo lg lam0 w P (relabel φ D) = poissonCvAlgo lg lam0 w P D) ∧
     (∀ (inv : List (List K) → List (List K)) rm P (prec : F → List (List K))
         (prec' : G → List (List K)), (∀ f, prec' (φ f) = prec f) →
-        (∀ m ∈ foldsOfD D, ∀ n ∈ foldsOfD D, ∀ k l,
+        (∀ m ∈ foldsOfD D, ∀ n ∈ foldsOfD D, ∀ k l, k < P → l < P →
           pairPrec inv prec m n k l = pairPrec inv prec m n l k) →
         foldPrecAlgo inv rm P ((foldsOfD (relabel φ D)).map prec') (relabel φ D)
           = foldPrecAlgo inv rm P ((foldsOfD D).map prec) D) := by
@@ -205,13 +243,13 @@ theorem cv_fold_relabel_estimators (φ : F → G) (hφ : Function.Injective φ)
     rw [relabel_fold] at this
     obtain ⟨f, hf, rfl⟩ := List.mem_map.mp this
     exact ⟨f, mem_sortedDistinct.mpr hf, rfl⟩
-  have hsym' : ∀ m ∈ foldsOfD (relabel φ D), ∀ n ∈ foldsOfD (relabel φ D), ∀ k l,
+  have hsym' : ∀ m ∈ foldsOfD (relabel φ D), ∀ n ∈ foldsOfD (relabel φ D), ∀ k l, k < P → l < P →
       pairPrec inv prec' m n k l = pairPrec inv prec' m n l k := by
-    intro m hm n hn k l
+    intro m hm n hn k l hk hl
     obtain ⟨fm, hfm, rfl⟩ := hmem m hm
     obtain ⟨fn, hfn, rfl⟩ := hmem n hn
     rw [hpp2]
-    exact hsym fm hfm fn hfn k l
+    exact hsym fm hfm fn hfn k l hk hl
   rw [foldPrecAlgo_closed inv rm P prec' _ (hbal.relabel φ hφ) hM' hsym',
     foldPrecAlgo_closed inv rm P prec D hbal hM hsym]
   show (pairsOf (sortedDistinct ((relabel φ D).map (·.cond)))).map _ = _
@@ -242,6 +280,51 @@ theorem cv_channel_perm (σ : Nat → Nat) (P : Nat)
     unfold poissonCvAlgo
     exact lofoAlgo_permCh _ _ _ P (reg_meanCommute lam0 w) (pkern_meanLinear lg P)
       (pkern_meanLinear lg P) σ (fun x => rfl) (fun u v => pkern_perm lg P σ hσ u v) hbal hM
+
+/-- channel order with one precision per fold.  Contract on `inv` (true of the matrix
+    inverse): the pair precision built from the permuted precisions `prec'` is the permuted
+    pair precision.  Then permuting channels and precisions alike changes nothing. -/
+theorem cv_channel_perm_foldprec (σ : Nat → Nat) (P : Nat)
+    (hσ : ((List.range P).map σ).Perm (List.range P))
+    (inv : List (List K) → List (List K)) (rm : Bool) (prec prec' : F → List (List K))
+    {D : List (Obs L F K)} {R : Nat} (hbal : Balanced D R) (hM : 2 ≤ (foldsOfD D).length)
+    (hsym : ∀ m ∈ foldsOfD D, ∀ n ∈ foldsOfD D, ∀ k l, k < P → l < P →
+      pairPrec inv prec m n k l = pairPrec inv prec m n l k)
+    (hperm : ∀ m ∈ foldsOfD D, ∀ n ∈ foldsOfD D, ∀ k l, k < P → l < P →
+      pairPrec inv prec' m n k l = pairPrec inv prec m n (σ k) (σ l)) :
+    foldPrecAlgo inv rm P ((foldsOfD (permCh σ D)).map prec') (permCh σ D)
+      = foldPrecAlgo inv rm P ((foldsOfD D).map prec) D := by
+  have hfo : sortedDistinct ((permCh σ D).map (·.fold)) = sortedDistinct (D.map (·.fold)) := by
+    rw [permCh_fold]
+  have hsym' : ∀ m ∈ sortedDistinct ((permCh σ D).map (·.fold)),
+      ∀ n ∈ sortedDistinct ((permCh σ D).map (·.fold)), ∀ k l, k < P → l < P →
+      pairPrec inv prec' m n k l = pairPrec inv prec' m n l k := by
+    rw [hfo]
+    intro m hm n hn k l hk hl
+    rw [hperm m hm n hn k l hk hl, hperm m hm n hn l k hl hk]
+    exact hsym m hm n hn _ _ (perm_range_lt hσ hk) (perm_range_lt hσ hl)
+  rw [foldPrecAlgo_closed inv rm P prec' _ (hbal.permCh σ) (by rw [hfo]; exact hM) hsym',
+    foldPrecAlgo_closed inv rm P prec D hbal hM hsym, permCh_cond, hfo]
+  apply List.map_congr_left
+  intro ab _
+  congr 1
+  have hTσ : ∀ x : Nat → K, xT rm P (fun k => x (σ k)) = fun k => xT rm P x (σ k) := by
+    intro x
+    unfold xT
+    cases rm
+    · rfl
+    · exact centre_perm P σ hσ x
+  unfold foldPrecSpec
+  apply pairAverage_congr
+  intro m hm n hn _
+  congr 1
+  rw [foldMean_permCh _ σ hTσ, foldMean_permCh _ σ hTσ, foldMean_permCh _ σ hTσ,
+    foldMean_permCh _ σ hTσ]
+  rw [kern_congr_bounded P (N' := fun k l => pairPrec inv prec m n (σ k) (σ l))
+    (fun k l hk hl => hperm m hm n hn k l hk hl)]
+  exact kern_perm P σ hσ (pairPrec inv prec m n)
+    (vsubF (foldMean (xT rm P) D ab.1 m) (foldMean (xT rm P) D ab.2 m))
+    (vsubF (foldMean (xT rm P) D ab.1 n) (foldMean (xT rm P) D ab.2 n))
 
 /-- the result is labelled by the dataset's condition descriptor: the entries are, in
     `triu` order, the pairs of the sorted distinct condition labels, which are strictly
@@ -355,6 +438,31 @@ theorem defaultCv_rejects_unbalanced {β : Type} [DecidableEq β] (l : List β) 
           exact h (of_decide_eq_true e)⟩
     simp only [defaultCv, this]
     rfl
+
+/-! ### the generated leaves (text of `/repo`, regenerated on every run)
+
+The model calls `Gen.C02.crossEntry` (in `kdiff`), `Gen.C02.foldAverage` (in `colMean`) and
+`Gen.C02.regTrain` (in `reg`), so every theorem above is about the current source text of
+these expressions; the three statements below pin their meaning and tie the Poisson copies of
+the same expressions to them. -/
+
+/-- the RDM entry for conditions (a, b) is `k_aa + k_bb − k_ab − k_ba`, in
+    `_calc_rdm_crossnobis_single` and, identically, in the loop of `calc_rdm_poisson_cv` -/
+theorem leaf_entry_formula (kbb kaa kab kba : K) :
+    Rsa.Gen.C02.crossEntry kbb kaa kab kba = kaa + kbb - kab - kba ∧
+    Rsa.Gen.C02.poissonEntry kbb kaa kab kba = Rsa.Gen.C02.crossEntry kbb kaa kab kba := by
+  unfold Rsa.Gen.C02.crossEntry Rsa.Gen.C02.poissonEntry
+  exact ⟨by ring, rfl⟩
+
+/-- the fold estimates are summed and divided by their number -/
+theorem leaf_fold_average (s n : K) : Rsa.Gen.C02.foldAverage s n = s / n := rfl
+
+/-- prior regularisation `(m + λ₀ w)/(1 + w)`, the same for training and test rates -/
+theorem leaf_prior_regularisation (m lam0 w : K) :
+    Rsa.Gen.C02.regTrain m lam0 w = (m + lam0 * w) / (1 + w) ∧
+    Rsa.Gen.C02.regTest m lam0 w = Rsa.Gen.C02.regTrain m lam0 w := by
+  unfold Rsa.Gen.C02.regTrain Rsa.Gen.C02.regTest
+  exact ⟨by push_cast; ring, rfl⟩
 
 /-! ### the hypotheses are satisfiable (non-vacuity) -/
 
